@@ -18,7 +18,10 @@ META = {
             "set. C38_negotiate is unbounded: for EVERY header, ParseFloat behaviour and comparison, NegotiateLanguage "
             "answers \"\" or a supported language. Tie: generated messages map == extracted table entry by entry; real "
             "Text() on every key x language vs the Lean translate; real NegotiateLanguage vs the Lean model on hostile "
-            "headers; direct oracle through the real subs engine for placeholders.",
+            "headers; direct oracle through the real subs engine for placeholders; direct negotiation oracle = a reference "
+            "implementation of the documented matching (lower-cased tag / primary subtag EQUAL to a shipped code, highest q, "
+            "leftmost among equals) on every generated header incl. case-folding-hostile non-ASCII tags, replayed through "
+            "router.negotiateLanguage (Accept-Language) and admin.resolveDashboardLanguage (?lang=).",
     "note": "trusted: Lean kernel; the go/ast translator (its sink table fails closed on unclassified i18n functions); "
             "the harness. Keys that reach the catalog through variables (CLI grammar Description fields, re-thrown error "
             "texts, Ego-language callers: 101 dynamic call sites, listed in evidence coverage.dynamic_sites) are NOT "
@@ -93,6 +96,13 @@ def run(ctx):
         if rc != 0:
             ctx.log(out[-3000:])
             ctx.broken.append("harness TestVerifC38 failed to run (rc=%d)" % rc)
+        else:
+            # ---- the same headers through the request-level entry points (Session.Language, dashboard ego-lang)
+            for pkg, test in (("./internal/router/", "TestVerifC38Router"), ("./internal/server/admin/", "TestVerifC38Admin")):
+                rc, out = ctx.go_test(pkg, test, timeout=900)
+                if rc != 0:
+                    ctx.log(out[-3000:])
+                    ctx.broken.append("harness %s failed to run (rc=%d)" % (test, rc))
 
     ctx.log("harness done")
     cases = ctx.read_jsonl("c38_cases.jsonl")
@@ -120,7 +130,7 @@ def run(ctx):
         ctx.broken.append("harness produced no correspondence cases")
 
     seen = set()
-    for f in ctx.read_jsonl("c38_failures.jsonl"):
+    for f in ctx.read_jsonl("c38_failures.jsonl") + ctx.read_jsonl("c38_failures_router.jsonl") + ctx.read_jsonl("c38_failures_admin.jsonl"):
         ctx.fail(f["class"], f["what"], input=f.get("input"), got=f.get("got"), want=f.get("want"), source="harness")
         seen.add(f["class"])
     stale = sorted(c for c in known if c not in {f["class"] for f in ctx.failures})
@@ -130,13 +140,24 @@ def run(ctx):
 
     st = (ctx.read_jsonl("c38_stats.json") or [{}])[0]
     c = st.get("counters", {})
+    for name in ("c38_stats_router.json", "c38_stats_admin.json"):
+        for k, v in (ctx.read_jsonl(name) or [{}])[0].get("counters", {}).items():
+            c[k] = c.get(k, 0) + v
+    streams = sum(v for k, v in c.items() if k in ("neg_corpus", "neg_hostile_corpus", "neg_long", "neg_hostile", "neg_structured", "neg_junk"))
+    if ok_x and (c.get("neg_oracle_judged", 0) < max(streams, nneg) or not c.get("router_headers") or not c.get("admin_params")):
+        ctx.broken.append("the reference oracle judged %d of %d generated headers (%d sent to the model); entry points replayed %d / %d"
+                          % (c.get("neg_oracle_judged", 0), streams, nneg, c.get("router_headers", 0), c.get("admin_params", 0)))
     ctx.coverage.update({
         "evaluations": len(cases),
         "distinct_nontrivial": c.get("distinct_nontrivial", 0),
         "rule": "lookups: every constant source key x every shipped language (+ unknown languages/keys, whole catalog in a random "
                 "language); non-trivial = (key, language) pairs whose text carries placeholders. negotiation: fixed nasty corpus, "
                 "structured headers (shipped/unshipped tags, case, regions, Unicode blanks, 50 q= shapes, long tie-heavy lists), raw junk "
-                "incl. invalid UTF-8 (oracle only); non-trivial = distinct headers with a ',' or ';' that select a language",
+                "incl. invalid UTF-8 (oracle only), hostile tags derived from the shipped codes (case-kin code points from a scan of the "
+                "unicode tables, full-width/mathematical/circled letters, homoglyphs, marks, zero-width, invalid UTF-8, affixes; alone and "
+                "above a shipped language), very long tags; EVERY header (also out-of-model ones) is judged by the reference matching "
+                "oracle (counters.neg_oracle_judged), and a sample is replayed through router.negotiateLanguage and "
+                "admin.resolveDashboardLanguage; non-trivial = distinct headers with a ',' or ';' that select a language",
         "samples": st.get("samples", []),
         "counters": c,
         "negotiation_cases": nneg,
